@@ -7,6 +7,7 @@ CONSTANTS
   Plus = "add"
   Times = "mul"
   LeafKind = "lin"
+  MaxParamT = 6
   Tag = "mk_addmul"
 INVARIANT Inv_FoldInputs
 INVARIANT Emit
